@@ -689,7 +689,7 @@ Proof.
       * now rewrite sumf_onehot by auto.
       * intros m Hm. rewrite om_det by auto. reflexivity.
     + intros m Hm. unfold ctrl_next_agentstate.
-      rewrite (sumf_onehot (fN f) n (fun k => fom f k a o m)) by auto.
+      transitivity (fom f n a o m); [apply (sumf_onehot (fN f) n (fun k => fom f k a o m)); auto|].
       rewrite om_det by auto. reflexivity.
 Qed.
 
@@ -712,8 +712,8 @@ Theorem ctrl_hist_prob_len1 A O (f : fsc R) a o :
   hist_prob_impl f [(a, o)] = hist_prob_spec f [(a, o)].
 Proof.
   intros Hom Ha Ho. unfold hist_prob_impl, hist_prob_spec. cbn [hist_prob_from node_hist_prob]. numR.
-  unfold ctrl_action_dist. rewrite Rmult_1_r. apply sumf_ext. intros n Hn. f_equal.
-  rewrite (sumf_ext (fN f) _ (fom f n a o)) by (intros; ring). rewrite Hom; auto. ring.
+  unfold ctrl_action_dist. numR. rewrite Rmult_1_r. apply sumf_ext. intros n Hn.
+  rewrite (sumf_ext (fN f) _ (fom f n a o)) by (intros; ring). rewrite Hom by auto. ring.
 Qed.
 
 (* full statement and its refutation *)
